@@ -10,7 +10,9 @@ import (
 
 type axisRange struct{ Min, Max int32 }
 
-var axisRanges = []axisRange{{0, 255}, {-128, 127}, {-127, 127}, {-32768, 32767}, {0, 65535}, {0, 1023}, {-1, 1}, {-512, 511}}
+// (the usual ones twice; then short levers and switches, round decimal ranges, powers of two as maxima, 12-bit)
+var axisRanges = []axisRange{{0, 255}, {-128, 127}, {-127, 127}, {-32768, 32767}, {0, 65535}, {0, 1023}, {-1, 1}, {-512, 511},
+	{0, 255}, {-128, 127}, {-32768, 32767}, {0, 1}, {0, 2}, {0, 4}, {0, 100}, {-100, 100}, {0, 256}, {0, 4095}, {-2048, 2047}, {-2, 2}, {0, 127}, {0, 16383}}
 
 var deadzoneSet = []float64{0, 0.002, 0.05, 0.1, 0.25, 0.49, 0.5, 0.9}
 
@@ -258,7 +260,8 @@ func genC07(t *rapid.T) AxisCase {
 	ccs := rapid.Permutation(indices(120)).Draw(t, "ccs")
 	c07Codes := drawAxisCodes(t, []uint16{0, 1, 3}, nAxes)
 	for i := 0; i < nAxes; i++ {
-		rg := rapid.SampledFrom([]axisRange{{-128, 127}, {-32768, 32767}, {0, 255}, {0, 1023}, {-1, 1}, {-127, 127}}).Draw(t, "range")
+		rg := rapid.SampledFrom([]axisRange{{-128, 127}, {-32768, 32767}, {0, 255}, {0, 1023}, {-1, 1}, {-127, 127}, {-128, 127}, {-32768, 32767}, {0, 255},
+			{0, 2}, {0, 100}, {-100, 100}, {0, 256}, {0, 4095}, {-2048, 2047}, {0, 65535}, {-2, 2}}).Draw(t, "range")
 		a := AxisDef{Sub: "", Code: c07Codes[i], Type: "cc", Min: rg.Min, Max: rg.Max, CC: intp(ccs[2*i]), CCNeg: intp(ccs[2*i+1])}
 		if (rg.Min == 0 && rapid.IntRange(0, 3).Draw(t, "center") > 0) || (rg.Min < 0 && rapid.IntRange(0, 5).Draw(t, "centerOnSigned") == 0) {
 			a.Center = boolp(true) // on a signed axis the option has nothing to move
@@ -376,7 +379,8 @@ func genC08(t *rapid.T) AxisCase {
 	nAxes := rapid.IntRange(1, 2).Draw(t, "axes")
 	c08Codes := drawAxisCodes(t, []uint16{0x10, 0x11}, nAxes)
 	for i := 0; i < nAxes; i++ {
-		rg := rapid.SampledFrom([]axisRange{{-1, 1}, {-1, 1}, {-32768, 32767}, {-128, 127}, {0, 255}, {0, 1023}}).Draw(t, "range")
+		rg := rapid.SampledFrom([]axisRange{{-1, 1}, {-1, 1}, {-32768, 32767}, {-128, 127}, {0, 255}, {0, 1023}, {-1, 1}, {-32768, 32767}, {0, 255},
+			{0, 2}, {0, 1}, {0, 4}, {0, 100}, {-100, 100}, {0, 256}, {0, 4095}, {-2, 2}, {0, 65535}}).Draw(t, "range")
 		a := AxisDef{Sub: "", Code: c08Codes[i], Type: "key", Min: rg.Min, Max: rg.Max}
 		note := rapid.OneOf(rapid.IntRange(0, 127), rapid.SampledFrom([]int{0, 1, 126, 127, 60})).Draw(t, "note")
 		a.Note = intp(note)
